@@ -53,7 +53,7 @@ class CallMixin(ExprMixin):
             if name == "cls" and self.info and self.info.get("kind") == "classmethod" and "." in self.contract.key:
                 name = self.contract.key.split(".")[0]
             name = self.contract.call_alias.get(name, name)
-            if name in S.CONTRACTS:
+            if name in S.CONTRACTS and name != "sorted":
                 yield from self.call_by_key(S.CONTRACTS[name], None, node, st)
                 return
             if name in S.RECORDS:
@@ -229,6 +229,8 @@ class CallMixin(ExprMixin):
             if ty.kind == "opaque":
                 if v.ty.kind == "none":
                     return V.opaque_const("None")
+                if v.ty.kind == "opt" and v.ty.args[0].kind == "opaque" and not self.discovering and not self.feasible(st, V.opt_isnone(v)):
+                    return V.opt_val(v)      # known not to be None here: the value itself is passed
                 return O.coerce(v, ty) if (v.parts or O.is_strlit(v) or v.ty.kind == "empty") else V.opaque_const("unit")
             if v.ty.kind == "list" and ty.kind == "list" and v.ty.elem.kind == "opt" and v.ty.elem.args[0] == ty.elem:
                 qi = z3.Int(V.fresh_name("qi"))
@@ -852,6 +854,10 @@ class CallMixin(ExprMixin):
         st.assume(z3.ForAll([x], z3.Implies(z3.Select(r.t, x), z3.And(0 <= h(x), h(x) < n, elem_h.t == x))))
         st.assume(*O.facts_for_card(r))
         st.assume(V.set_card(r) <= n)
+        # pigeonhole (finite-set lemma schema): pairwise distinct projected values => as many members as elements
+        i2 = z3.Int(V.fresh_name("qj"))
+        ei2 = proj(V.list_get(lst, i2)) if proj else V.list_get(lst, i2)
+        st.assume(z3.Implies(z3.ForAll([i, i2], z3.Implies(z3.And(0 <= i, i < i2, i2 < n), elem_i.t != ei2.t)), V.set_card(r) == n))
         return r
 
     def bi_list(self, node, st):
@@ -960,6 +966,25 @@ class CallMixin(ExprMixin):
             raise UnsupportedError(f"getattr(…, {attr!r}, default) on {v.ty}")
 
     def bi_sorted(self, node, st):
+        if len(node.args) == 1 and not node.keywords:
+            # sorted(<set>): T-sort - a list holding exactly the set's elements, each once
+            outs = list(self.ev_value(node.args[0], st))
+            if outs and all((not isinstance(r, Raise)) and r.ty.kind == "set" for r, _ in outs):
+                for sv, s in outs:
+                    out = V.fresh(T.ListT(sv.ty.elem), "Lsorted")
+                    n = V.list_len(out)
+                    (es,) = sv.ty.elem.sorts()
+                    i, j = z3.Int(V.fresh_name("qi")), z3.Int(V.fresh_name("qj"))
+                    x = z3.Const(V.fresh_name("qx"), es)
+                    idx = z3.Function(V.fresh_name("sorted_idx"), es, z3.IntSort())
+                    s.assume(*O.facts_for_card(sv))
+                    s.assume(n == V.set_card(sv), n >= 0)
+                    s.assume(z3.ForAll([i], z3.Implies(z3.And(0 <= i, i < n), z3.Select(sv.t, V.list_get(out, i).t))))
+                    s.assume(z3.ForAll([x], z3.Implies(z3.Select(sv.t, x), z3.And(0 <= idx(x), idx(x) < n, V.list_get(out, idx(x)).t == x))))
+                    s.assume(z3.ForAll([i, j], z3.Implies(z3.And(0 <= i, i < j, j < n), V.list_get(out, i).t != V.list_get(out, j).t)))
+                    self.last_call_fresh = True
+                    yield out, s
+                return
         c = S.CONTRACTS.get("sorted")
         if c is None:
             raise UnsupportedError("sorted() has no assumed contract")
